@@ -9,13 +9,14 @@ open Hertz.Route Hertz.Spec.Route
 /-- On a well-formed tree the loop of `find` ends within `4 * size root` program points and returns
 what the recursive search returns: the same handlers, full path and parameters on a hit; no
 handlers, `cn == nil` (empty full path) and `*paramsPointer` re-sliced to length 0 on a miss. -/
-theorem findIter_spec (root : Node) (cap : Nat) (hwf : WF root .skind) (hp : PnOK root 0 cap) (path : Bytes)
+theorem findIter_spec (u : Bool) (root : Node) (cap : Nat) (hwf : WF root .skind) (hp : PnOK root 0 cap) (path : Bytes)
     (arr : List Bytes) (harr : arr.length = cap) :
     (∀ f, find root path cap = .hit f → ∃ t arr' plen',
-        findIter root path arr 0 false = some (.value (some f.handlers) f.fullPath f.params t arr' plen')) ∧
+        findIter root path arr 0 u = some (.value (some f.handlers) f.fullPath
+          (f.params.map fun kv => (kv.1, unescapeVal u kv.2)) t arr' plen')) ∧
     (find root path cap = .miss → ∃ t arr', arr'.length = cap ∧
-        findIter root path arr 0 false = some (.value none [] [] t arr' 0)) := by
-  obtain ⟨h1, h2⟩ := (visit_sim path root .skind 0 cap hwf hp).1 rfl [] path 0 arr false harr (by simp) (by simp)
+        findIter root path arr 0 u = some (.value none [] [] t arr' 0)) := by
+  obtain ⟨h1, h2⟩ := (visit_sim u path root .skind 0 cap hwf hp).1 rfl [] path 0 arr false harr (by simp) (by simp)
   simp only [List.take_zero] at h1 h2
   refine ⟨?_, ?_⟩
   · intro f hf
@@ -40,17 +41,18 @@ theorem find_hit_or_miss (root : Node) (cap : Nat) (hwf : WF root .skind) (hp : 
 theorem findIter_agrees (root : Node) (cap : Nat) (hwf : WF root .skind) (hp : PnOK root 0 cap) (path : Bytes)
     (arr : List Bytes) (harr : arr.length = cap) :
     agrees (find root path cap) (findIter root path arr 0 false) = true := by
-  obtain ⟨h1, h2⟩ := findIter_spec root cap hwf hp path arr harr
+  obtain ⟨h1, h2⟩ := findIter_spec false root cap hwf hp path arr harr
   rcases find_hit_or_miss root cap hwf hp path with ⟨f, hf⟩ | hm
   · obtain ⟨t, arr', plen', h⟩ := h1 f hf
+    rw [map_unescapeVal_false] at h
     rw [hf, h]; simp [agrees]
   · obtain ⟨t, arr', _, h⟩ := h2 hm
     rw [hm, h]; simp [agrees]
 
-theorem findIter_terminates (root : Node) (cap : Nat) (hwf : WF root .skind) (hp : PnOK root 0 cap) (path : Bytes)
+theorem findIter_terminates (u : Bool) (root : Node) (cap : Nat) (hwf : WF root .skind) (hp : PnOK root 0 cap) (path : Bytes)
     (arr : List Bytes) (harr : arr.length = cap) :
-    ∃ o, run path false (4 * size root) .top (initSt root path arr 0) = some o ∧ ∀ s, o ≠ .panic s := by
-  obtain ⟨h1, h2⟩ := findIter_spec root cap hwf hp path arr harr
+    ∃ o, run path u (4 * size root) .top (initSt root path arr 0) = some o ∧ ∀ s, o ≠ .panic s := by
+  obtain ⟨h1, h2⟩ := findIter_spec u root cap hwf hp path arr harr
   rcases find_hit_or_miss root cap hwf hp path with ⟨f, hf⟩ | hm
   · obtain ⟨t, arr', plen', h⟩ := h1 f hf
     exact ⟨_, h, by intro s hs; cases hs⟩
@@ -58,13 +60,13 @@ theorem findIter_terminates (root : Node) (cap : Nat) (hwf : WF root .skind) (hp
     exact ⟨_, h, by intro s hs; cases hs⟩
 
 /-- the 405 loop over trees that are all well formed: `notAllowed` or `notFound`, never a handler -/
-theorem notAllowedLoop_spec (cap : Nat) (m p : Bytes) : ∀ (ts : List Router) (arr : List Bytes), arr.length = cap →
+theorem notAllowedLoop_spec (u : Bool) (cap : Nat) (m p : Bytes) : ∀ (ts : List Router) (arr : List Bytes), arr.length = cap →
     (∀ t ∈ ts, WF t.root .skind ∧ PnOK t.root 0 cap) →
-    (notAllowedLoop ts m p arr 0 false = .notAllowed ∧ ∃ t ∈ ts, t.method ≠ m ∧ ∃ f, find t.root p cap = .hit f) ∨
-    (notAllowedLoop ts m p arr 0 false = .notFound ∧ ∀ t ∈ ts, t.method ≠ m → find t.root p cap = .miss)
+    (notAllowedLoop ts m p arr 0 u = .notAllowed ∧ ∃ t ∈ ts, t.method ≠ m ∧ ∃ f, find t.root p cap = .hit f) ∨
+    (notAllowedLoop ts m p arr 0 u = .notFound ∧ ∀ t ∈ ts, t.method ≠ m → find t.root p cap = .miss)
   | [], arr, _, _ => Or.inr ⟨rfl, by intro t ht; simp at ht⟩
   | t :: r, arr, harr, hall => by
-    have hr := fun arr' (h' : arr'.length = cap) => notAllowedLoop_spec cap m p r arr' h'
+    have hr := fun arr' (h' : arr'.length = cap) => notAllowedLoop_spec u cap m p r arr' h'
       (fun t' ht' => hall t' (List.mem_cons_of_mem _ ht'))
     simp only [notAllowedLoop]
     by_cases hm : t.method = m
@@ -78,7 +80,7 @@ theorem notAllowedLoop_spec (cap : Nat) (m p : Bytes) : ∀ (ts : List Router) (
         · exact h2 t' ht'' hne
     · rw [if_neg hm]
       obtain ⟨hwf, hp⟩ := hall t (List.mem_cons_self ..)
-      obtain ⟨h1, h2⟩ := findIter_spec t.root cap hwf hp p arr harr
+      obtain ⟨h1, h2⟩ := findIter_spec u t.root cap hwf hp p arr harr
       rcases find_hit_or_miss t.root cap hwf hp p with ⟨f, hf⟩ | hmiss
       · obtain ⟨tt, arr', plen', h⟩ := h1 f hf
         rw [h]
@@ -101,10 +103,12 @@ def NoHandlerOutcome (e : Engine) (o : Opts) (m p : Bytes) (s : ServedI) : Prop 
   (s = .notFound ∧ (o.handleMethodNotAllowed = true → ∀ t ∈ e.trees, t.method ≠ m → find t.root p e.maxParams = .miss))
 
 /-- `Engine.ServeHTTP` with the iterative `find` against `Engine.serve` with the recursive one, on an
-engine whose trees are well formed (every accepted registration list gives one), unescape off. -/
+engine whose trees are well formed (every accepted registration list gives one), for every setting of the
+options: the values handed to the handler are the recursive model's substrings, unescaped when asked. -/
 theorem serveIter_serve (e : Engine) (rs : List Spec.Route.Route) (hok : EngineOK e rs) (o : Opts)
-    (hu : o.unescape = false) (m : Bytes) (p' : Bytes) :
-    (∀ f, e.serve m (47 :: p') = .handler f → Engine.serveIter e o m (47 :: p') = .handler f) ∧
+    (m : Bytes) (p' : Bytes) :
+    (∀ f, e.serve m (47 :: p') = .handler f → Engine.serveIter e o m (47 :: p') =
+        .handler ⟨f.handlers, f.fullPath, f.params.map fun kv => (kv.1, unescapeVal o.unescape kv.2)⟩) ∧
     (e.serve m (47 :: p') = .noRoute → NoHandlerOutcome e o m (47 :: p') (Engine.serveIter e o m (47 :: p'))) ∧
     (∀ s, e.serve m (47 :: p') ≠ .panic s) := by
   obtain ⟨-, htrees, -⟩ := hok
@@ -114,10 +118,9 @@ theorem serveIter_serve (e : Engine) (rs : List Spec.Route.Route) (hok : EngineO
       NoHandlerOutcome e o m (47 :: p')
         (if o.handleMethodNotAllowed then notAllowedLoop e.trees m (47 :: p') arr 0 o.unescape else ServedI.notFound) := by
     intro arr harr
-    rw [hu]
     by_cases hh : o.handleMethodNotAllowed = true
     · simp only [hh, if_true]
-      rcases notAllowedLoop_spec e.maxParams m (47 :: p') e.trees arr harr hall with ⟨h1, h2⟩ | ⟨h1, h2⟩
+      rcases notAllowedLoop_spec o.unescape e.maxParams m (47 :: p') e.trees arr harr hall with ⟨h1, h2⟩ | ⟨h1, h2⟩
       · exact Or.inr (Or.inl ⟨h1, hh, h2⟩)
       · exact Or.inr (Or.inr ⟨h1, fun _ => h2⟩)
     · simp only [hh, Bool.false_eq_true, if_false]
@@ -134,9 +137,8 @@ theorem serveIter_serve (e : Engine) (rs : List Spec.Route.Route) (hok : EngineO
   | some t =>
     obtain ⟨htm, -⟩ := treesGet_some _ _ _ hg
     obtain ⟨hwf, hp⟩ := hall t htm
-    obtain ⟨h1, h2⟩ := findIter_spec t.root e.maxParams hwf hp (47 :: p') _ hrep
+    obtain ⟨h1, h2⟩ := findIter_spec o.unescape t.root e.maxParams hwf hp (47 :: p') _ hrep
     dsimp only
-    rw [hu]
     rcases find_hit_or_miss t.root e.maxParams hwf hp (47 :: p') with ⟨f, hf⟩ | hmiss
     · obtain ⟨tt, arr', plen', h⟩ := h1 f hf
       rw [hf, h]
@@ -160,8 +162,7 @@ theorem serveIter_serve (e : Engine) (rs : List Spec.Route.Route) (hok : EngineO
           · exact ⟨301, by simp [hget], hc4, hc1, hc2, by simp [hget], Or.inl rfl⟩
           · exact ⟨307, by simp [hget], hc4, hc1, hc2, by simp [hget], Or.inr rfl⟩
         · rw [if_neg hc]
-          have := tailSpec arr' hl'
-          rwa [hu] at this
+          exact tailSpec arr' hl'
       · intro s hs; cases hs
 
 theorem matches_method (r : Route) (m p : Bytes) (ps : List (Bytes × Bytes)) (h : r.matches m p = some ps) : r.method = m := by
